@@ -14,4 +14,6 @@ pub use errors::VerificationError;
 pub use observable::ObservableCommitment;
 pub(crate) use periodic::evaluate_periodic_columns_circuit;
 pub use quotient::recompose_quotient_from_chunks_circuit;
+#[cfg(p3r_verif)]
+pub use quotient::verif_exports as verif_quotient_exports;
 pub use stark::verify_p3_uni_proof_circuit;
